@@ -23,7 +23,7 @@ def gen_scenario(r, sid, masked=False):
     c = {"st": r.choice(["none", "eq1", "eq1", "int"]), "check": r.choice([True, True, False]),
          "chk_explicit": r.random() < 0.5,
          "ev": r.choice(["none", "none", "plain", "v1", "err"]), "tm": r.choice([NONE, NONE, 3, 9]),
-         "tmPast": False, "to": r.choice([NONE, NONE, 0, 5, 11])}
+         "tmPast": False, "to": r.choice([NONE, NONE, 0, 5, 11]), "S": r.choice([NONE, NONE, 2.25])}
     if c["tm"] == NONE and r.random() < 0.15:
         c["tmPast"] = True
     if not c["check"]:
@@ -52,6 +52,8 @@ def source(scn):
         args.append("state_trigger=\"pyscript.a == '1'\"")
     elif c["st"] == "int":
         args.append("state_trigger=\"int(pyscript.a) == 1\"")
+    if c["st"] != "none" and c["S"] != NONE:
+        args.append("state_hold=%s" % c["S"])
     if c["st"] != "none" and c["chk_explicit"]:
         args.append("state_check_now=%s" % c["check"])
     if c["ev"] == "plain":
@@ -160,7 +162,7 @@ def run_case(scn, legacy):
     def ms(x):
         return x if x == NONE else x * 1000
     cc = {"t0": T0 * 1000, "st": c["st"], "check": c["check"], "ev": c["ev"], "tm": ms(c["tm"]), "tmPast": c["tmPast"],
-          "to": ms(c["to"]), "flags": [], "horizon": scn["horizon"] * 1000}
+          "to": ms(c["to"]), "S": NONE if c["S"] == NONE else int(c["S"] * 1000), "flags": [], "horizon": scn["horizon"] * 1000}
     return {"id": "%s/%s" % (scn["sid"], "legacy" if legacy else "dm"), "c": cc, "a0": scn["a0"],
             "tl": [{"t": int(e["t"] * 1000), "k": e["k"], "v": e["v"]} for e in scn["tl"]],
             "obs": res["obs"], "leak": res["leak"], "legacy": legacy, "scn": scn}
